@@ -87,9 +87,10 @@ class DirectorySnapshotDiff:
             def get_inode(directory: DirectorySnapshot, full_path: bytes | str) -> int | tuple[int, int]:
                 return directory.inode(full_path)
 
-        # check that all unchanged paths have the same inode
+        # check that all unchanged paths have the same inode and kind (file systems
+        # hand the inode number of a removed entry to the next one created)
         for path in ref.paths & snapshot.paths:
-            if get_inode(ref, path) != get_inode(snapshot, path):
+            if get_inode(ref, path) != get_inode(snapshot, path) or ref.isdir(path) != snapshot.isdir(path):
                 created.add(path)
                 deleted.add(path)
 
@@ -98,15 +99,15 @@ class DirectorySnapshotDiff:
         for path in set(deleted):
             inode = ref.inode(path)
             new_path = snapshot.path(inode)
-            if new_path:
-                # file is not deleted but moved
+            if new_path and ref.isdir(path) == snapshot.isdir(new_path):
+                # file is not deleted but moved (a move never changes the kind)
                 deleted.remove(path)
                 moved.add((path, new_path))
 
         for path in set(created):
             inode = snapshot.inode(path)
             old_path = ref.path(inode)
-            if old_path:
+            if old_path and ref.isdir(old_path) == snapshot.isdir(path):
                 created.remove(path)
                 moved.add((old_path, path))
 
@@ -114,7 +115,7 @@ class DirectorySnapshotDiff:
         # first check paths that have not moved
         modified: set[bytes | str] = set()
         for path in ref.paths & snapshot.paths:
-            if get_inode(ref, path) == get_inode(snapshot, path) and (
+            if path not in created and get_inode(ref, path) == get_inode(snapshot, path) and (
                 ref.mtime(path) != snapshot.mtime(path) or ref.size(path) != snapshot.size(path)
             ):
                 modified.add(path)
